@@ -379,23 +379,91 @@ def lon360(m):
 # ---- dialect datasets (in memory) ----
 
 
-def ugrid_ds(m, dtype, fill, start, wrap):
+UGRID_CONNS = {
+    # uxarray name: (variable name in the file, dims)
+    "face_node_connectivity": ("Mesh2_face_nodes", ["nMesh2_face", "nMaxMesh2_face_nodes"]),
+    "edge_node_connectivity": ("Mesh2_edge_nodes", ["nMesh2_edge", "Two"]),
+    "face_edge_connectivity": ("Mesh2_face_edges", ["nMesh2_face", "nMaxMesh2_face_nodes"]),
+    "edge_face_connectivity": ("Mesh2_edge_faces", ["nMesh2_edge", "Two"]),
+    "node_face_connectivity": ("Mesh2_node_faces", ["nMesh2_node", "nMaxMesh2_node_faces"]),
+}
+UGRID_DTYPES = ["int32", "int64", "float64"]
+UGRID_FILLS = [-1, 999, INT_FILL, None]  # None: no _FillValue attribute (float tables pad with NaN, integer tables have no padding)
+UGRID_STARTS = [0, 1, "min"]  # "min": no start_index attribute, smallest index 1
+UGRID_COMBOS = [(d, f, st) for d in UGRID_DTYPES for f in UGRID_FILLS for st in UGRID_STARTS]
+
+
+def encode_conn(ref, dtype, fill, start):
+    """a zero-based INT_FILL-padded table in the given dialect; returns (array, attrs) or None when the
+    combination cannot be written down (fill not representable, padding without a fill value)"""
+    ref = np.asarray(ref, dtype=np.int64)
+    real = ref != INT_FILL
+    shift = 0 if start == 0 else 1
+    dt = np.dtype(dtype)
+    attrs = {}
+    if dt.kind == "f":
+        out = np.where(real, ref + shift, 0).astype(dt)
+        out[~real] = np.nan if fill is None else float(fill)
+        if fill is not None:
+            attrs["_FillValue"] = dt.type(fill)
+    else:
+        if fill is None:
+            if (~real).any():
+                return None
+        elif not (np.iinfo(dt).min <= fill <= np.iinfo(dt).max):
+            return None
+        out = np.where(real, ref + shift, 0).astype(dt)
+        if fill is not None:
+            out[~real] = fill
+            attrs["_FillValue"] = dt.type(fill)
+    if start != "min":
+        attrs["start_index"] = (np.int32 if dt.kind == "f" else dt.type)(start)
+    return out, attrs
+
+
+def ugrid_ds(m, conns, wrap):
+    """in-memory UGRID dataset; `conns`: {uxarray connectivity name: [dtype, fill, start]}"""
+    import uxarray as ux
     import xarray as xr
 
-    dt = np.dtype(dtype).type
-    t = m.table(fill=fill, dtype=dtype, start=start)
+    need_uniform = any(np.dtype(d).kind != "f" and f is None
+                       for n, (d, f, st) in conns.items() if n in ("face_node_connectivity", "face_edge_connectivity"))
+    if need_uniform:
+        k = min(m.sizes())
+        m = meshes.AMesh([f[:k] for f in m.faces], m.xyz, False, m.kind + "+uniform")
+    topo = dict(cf_role="mesh_topology", topology_dimension=2, node_coordinates="Mesh2_node_x Mesh2_node_y",
+                face_dimension="nMesh2_face", node_dimension="nMesh2_node")
     ds = xr.Dataset()
-    ds["Mesh2"] = xr.DataArray(np.int32(0), attrs=dict(
-        cf_role="mesh_topology", topology_dimension=2, node_coordinates="Mesh2_node_x Mesh2_node_y",
-        face_node_connectivity="Mesh2_face_nodes", face_dimension="nMesh2_face", node_dimension="nMesh2_node"))
     ds["Mesh2_node_x"] = xr.DataArray(lon360(m) if wrap else m.lon.copy(), dims=["nMesh2_node"],
                                       attrs=dict(standard_name="longitude", units="degrees_east"))
     ds["Mesh2_node_y"] = xr.DataArray(m.lat.copy(), dims=["nMesh2_node"],
                                       attrs=dict(standard_name="latitude", units="degrees_north"))
-    ds["Mesh2_face_nodes"] = xr.DataArray(t, dims=["nMesh2_face", "nMaxMesh2_face_nodes"],
-                                          attrs=dict(cf_role="face_node_connectivity", _FillValue=dt(fill), start_index=dt(start)))
+    ref = None
+    for name, (dtype, fill, start) in conns.items():
+        if name == "face_node_connectivity":
+            table = m.table()
+        else:
+            if ref is None:
+                ref = meshes.to_grid(m, ux)
+            table = np.asarray(getattr(ref, name).values)
+        enc = encode_conn(table, dtype, fill, start)
+        if enc is None:
+            raise ValueError(f"{name}: {dtype}/{fill}/{start} cannot be encoded")
+        arr, attrs = enc
+        var, dims = UGRID_CONNS[name]
+        ds[var] = xr.DataArray(arr, dims=dims, attrs=dict(attrs, cf_role=name))
+        topo[name] = var
+        if name.startswith("edge_"):
+            topo["edge_dimension"] = "nMesh2_edge"
+    ds["Mesh2"] = xr.DataArray(np.int32(0), attrs=topo)
     ds.attrs = dict(title="c19", history=["made", "for", "c19"])
     return ds
+
+
+def ugrid_conns_of(spec):
+    if "conns" in spec:
+        return {k: tuple(v) for k, v in spec["conns"].items()}
+    return {"face_node_connectivity": (spec["dtype"], spec["fill"], spec["start"])}
 
 
 def mpas_ds(m, idt=np.int32):
@@ -518,9 +586,26 @@ for _cont in ("list", "tuple", "ndarray"):
             CTOR_SPECS.append(dict(ctor="from_face_vertices", container=_cont, latlon=_latlon, single=_single))
 CTOR_SPECS.append(dict(ctor="from_face_vertices", container="list", latlon=True, single=False, via="open_grid(list)"))
 for _api in ("from_dataset", "open_grid"):
-    for _dt, _fill, _start in [("int32", -1, 1), ("int64", -1, 1), ("int64", -1, 0), ("int64", INT_FILL, 0), ("int64", 999999, 1), ("int32", -1, 0)]:
-        for _wrap in (False, True):
-            CTOR_SPECS.append(dict(ctor="dataset", dialect="UGRID", api=_api, dtype=_dt, fill=_fill, start=_start, wrap=_wrap))
+    # dtype × fill × start_index is a PRODUCT for every connectivity variable the dataset carries: variable k of
+    # spec i gets combination (i + shift_k) mod 36, so each variable sees all 36 combinations once per API
+    for _i, _combo in enumerate(UGRID_COMBOS):
+        _conns = {"face_node_connectivity": list(_combo)}
+        for _k, _n in enumerate(["edge_node_connectivity", "face_edge_connectivity", "edge_face_connectivity", "node_face_connectivity"]):
+            _c = UGRID_COMBOS[(_i + 7 * (_k + 1)) % len(UGRID_COMBOS)]
+            # combinations that cannot be written down for this variable: a fill value outside the dtype's range,
+            # an integer table that is padded (even on uniform meshes) but has no fill value
+            if _c[0] != "float64" and _c[1] is not None and not (np.iinfo(_c[0]).min <= _c[1] <= np.iinfo(_c[0]).max):
+                continue
+            if _c[1] is None and _n in ("edge_face_connectivity", "node_face_connectivity") and _c[0] != "float64":
+                continue
+            _conns[_n] = list(_c)
+        if _combo[0] != "float64" and _combo[1] is not None and not (np.iinfo(_combo[0]).min <= _combo[1] <= np.iinfo(_combo[0]).max):
+            # not encodable for face_node either: keep the spec (the other tables still need their combination)
+            _conns["face_node_connectivity"] = ["int64", -1, 1]
+            CTOR_SPECS.append(dict(ctor="dataset", dialect="UGRID", api=_api, conns=_conns, wrap=(_i % 3 == 0)))
+            continue
+        CTOR_SPECS.append(dict(ctor="dataset", dialect="UGRID", api=_api, conns=_conns, wrap=(_i % 3 == 0)))
+        CTOR_SPECS.append(dict(ctor="dataset", dialect="UGRID", api=_api, conns={"face_node_connectivity": list(_combo)}, wrap=(_i % 3 == 1)))
     for _d in ("MPAS", "MPAS-dual", "Exodus", "ESMF"):
         for _idt in ("int32", "int64"):
             CTOR_SPECS.append(dict(ctor="dataset", dialect=_d, api=_api, dtype=_idt))
@@ -608,7 +693,7 @@ def make_inputs(m, spec):
     if c == "dataset":
         d = spec["dialect"]
         if d == "UGRID":
-            ds = ugrid_ds(m, np.dtype(spec["dtype"]), spec["fill"], spec["start"], spec["wrap"])
+            ds = ugrid_ds(m, ugrid_conns_of(spec), spec["wrap"])
         elif d in ("MPAS", "MPAS-dual"):
             ds = mpas_ds(m, np.dtype(spec.get("dtype", "int32")).type)
         elif d == "Exodus":
@@ -640,7 +725,8 @@ def model_build_args(spec):
         return 3, 0
     if c == "dataset":
         if spec["dialect"] == "UGRID":
-            inplace = spec["dtype"] == "int64" and spec["fill"] != INT_FILL
+            # the as-is code standardised int64 tables in place (non-standard fill, or a start index to subtract)
+            inplace = any(d == "int64" and (f != INT_FILL or st != 0) for d, f, st in ugrid_conns_of(spec).values())
             return 1, (1 if inplace else 0) + (2 if spec["wrap"] else 0) + 4
         return 1, 0
     return 2, (2 if spec["wrap"] else 0)
@@ -870,6 +956,39 @@ def scenario_build(ctx, m, spec, history=None, tag="gen"):
         return
     if expected_model:
         ctx.notes.append(f"model predicts an input write for {name} {spec} but the code no longer does it")
+    if spec["ctor"] == "dataset" and spec["dialect"] == "UGRID":
+        seen = ctx.extra.setdefault("ugrid_combinations_built", {})
+        for var, (d, f, st) in ugrid_conns_of(spec).items():
+            ctx.hit(f"ugrid:dtype={d}")
+            ctx.hit(f"ugrid:fill={'INT_FILL' if f == INT_FILL else f}")
+            ctx.hit(f"ugrid:start={st}")
+            seen.setdefault(var, [])
+            if [d, f, st] not in seen[var]:
+                seen[var].append([d, f, st])
+    # a second grid from the same source must report what the first one reports
+    obs1 = pub_obs(g)
+    try:
+        g2 = call()
+    except Exception as e:
+        g2 = None
+        ctx.fail(f"C19/build/{name}/second-build-raises", f"{name}: building a second grid from the same source raises {type(e).__name__}: {e}",
+                 inp, dict(error=str(e)), None, ["construct_readonly"])
+    if g2 is not None:
+        H1b = G.snapshot()
+        second_written = []
+        for (n, r), b, (_, o) in zip(roots, before_content, named):
+            v, x, p = lean_frame(ctx, H1, H1b, r)
+            cd = snap_diff(b, deep_snap(o))
+            if v == "changed" or cd:
+                second_written.append(dict(input=n, cell=describe_cell(G, x), content_diff=cd))
+        od = obs_diff(obs1, pub_obs(g2))
+        if second_written or od:
+            sig = (f"C19/build/{name}/input-dataset-adopted" if spec["ctor"] == "adopt" else f"C19/build/{name}/second-grid-differs")
+            ctx.fail(sig, f"{name}: a second grid built from the same source differs from the first in {od}; inputs written by the second build: {second_written}",
+                     inp, dict(observation_differs=od, written=second_written), None, ["construct_readonly"])
+            return
+        ctx.hit("second-build-agrees")
+        H1 = H1b
     # later use of the grid (lazy derivation, setters, normalisation) must not reach the inputs either
     H = H1
     obs_inputs = [deep_snap(o) for _, o in named]
@@ -912,7 +1031,7 @@ def build_base_grid(m, rng, source):
     import uxarray as ux
 
     if source == "dataset":
-        g = ux.open_grid(ugrid_ds(m, np.dtype("int32"), -1, 1, False))
+        g = ux.open_grid(ugrid_ds(m, {"face_node_connectivity": ("int32", -1, 1)}, False))
     elif source == "mpas":
         g = ux.open_grid(mpas_ds(m))
     else:
